@@ -137,8 +137,9 @@ Record Inv2 (mx : nat) (s : st) : Prop := {
 
 Record Inv3 (mx : nat) (s : st) : Prop := {
   i_sorted : sorted (logical mx s);
-  i_prefix : exists R, logical mx s = map fst (acc (cur_bp s)) ++ R;
-  i_fresh : Forall (fun i => i < nxt s) (logical mx s)
+  i_fresh : Forall (fun i => i < nxt s) (logical mx s);
+  (* what the retry handler holds has been bounced at least once *)
+  i_rq_pos : forall i r, In (Data i r) (rq s) -> 1 <= r
 }.
 
 (* ---------------------------------------------------------------- layer 4: the cluster log and the success events *)
@@ -155,6 +156,8 @@ Record Inv4 (mx : nat) (s : st) : Prop := {
   (* success entries, in creation order, increase in both components; offsets are below the log length *)
   i_ent_sorted : StronglySorted (fun a b => fst a < fst b /\ snd a < snd b) (entries s);
   i_ent_bound : Forall (fun a => snd a < length (log s)) (entries s);
-  (* a delivered message is older than every message still travelling and not acknowledged *)
-  i_ent_old : forall a j, In a (entries s) -> In j (logical mx s) -> ~ In j (map fst (entries s)) -> fst a < j
+  (* a delivered message is older than every message still travelling *)
+  i_succ_old : forall a j, In a (succ s) -> In j (logical mx s) -> fst a < j;
+  i_log_fresh : Forall (fun x => x < nxt s) (log s);
+  i_ent_fresh : Forall (fun a => fst a < nxt s) (entries s)
 }.
